@@ -2,6 +2,8 @@
 // is returned by a stub local node behind the REAL chord.Server handlers, served by the real twirp servers over
 // the test transport, called through the REAL RemoteNode (twirp protobuf client + chord.ErrorMapper), for every
 // RPC method; the caller's view (which registry variable it is, ErrorIsRetryable) is printed.
+// The KV / lease methods are called with keys / prefixes / lease names of many lengths (0 .. 64 KiB, powers of two and
+// their neighbours, random lengths; ASCII and multi-byte/escaped UTF-8): the server echoes the key in the error's meta.
 package main
 
 import (
@@ -11,6 +13,7 @@ import (
 	"net"
 	"net/http"
 	"sort"
+	"strconv"
 	"strings"
 	"time"
 
@@ -121,73 +124,111 @@ func wrapSame(shape string, err error) (error, bool) {
 
 type method struct {
 	name string // name of the chord.Server handler
-	call func(ctx context.Context, n *chordImpl.RemoteNode, peer chord.VNode) error
+	kv   bool   // carries a key / prefix / lease name chosen by the caller
+	call func(ctx context.Context, n *chordImpl.RemoteNode, peer chord.VNode, key []byte) error
+}
+
+// makeKey builds the key a token stands for: a<n> = n ASCII letters, u<n> = n bytes of valid UTF-8 with multi-byte
+// characters and characters JSON has to escape (the driver's `keyOf` rebuilds the same string)
+var keyUnits = []string{"é", "\"", "\\", "\n", "\x00", "日", "<", "k"}
+
+func makeKey(tok string) ([]byte, bool) {
+	if len(tok) < 2 {
+		return nil, false
+	}
+	n, err := strconv.Atoi(tok[1:])
+	if err != nil || n < 0 || n > 1<<24 {
+		return nil, false
+	}
+	b := make([]byte, 0, n)
+	switch tok[0] {
+	case 'a':
+		for i := 0; i < n; i++ {
+			b = append(b, byte('a'+i%26))
+		}
+	case 'u':
+		for i := 0; ; i++ {
+			u := keyUnits[i%len(keyUnits)]
+			if len(b)+len(u) > n {
+				break
+			}
+			b = append(b, u...)
+		}
+		for len(b) < n {
+			b = append(b, 'x')
+		}
+	default:
+		return nil, false
+	}
+	return b, true
 }
 
 var methods = []method{
-	{"Ping", func(_ context.Context, n *chordImpl.RemoteNode, _ chord.VNode) error { return n.Ping() }},
-	{"Notify", func(_ context.Context, n *chordImpl.RemoteNode, p chord.VNode) error { return n.Notify(p) }},
-	{"FindSuccessor", func(_ context.Context, n *chordImpl.RemoteNode, _ chord.VNode) error {
+	{"Ping", false, func(_ context.Context, n *chordImpl.RemoteNode, _ chord.VNode, _ []byte) error { return n.Ping() }},
+	{"Notify", false, func(_ context.Context, n *chordImpl.RemoteNode, p chord.VNode, _ []byte) error { return n.Notify(p) }},
+	{"FindSuccessor", false, func(_ context.Context, n *chordImpl.RemoteNode, _ chord.VNode, _ []byte) error {
 		_, e := n.FindSuccessor(42)
 		return e
 	}},
-	{"GetSuccessors", func(_ context.Context, n *chordImpl.RemoteNode, _ chord.VNode) error {
+	{"GetSuccessors", false, func(_ context.Context, n *chordImpl.RemoteNode, _ chord.VNode, _ []byte) error {
 		_, e := n.GetSuccessors()
 		return e
 	}},
-	{"GetPredecessor", func(_ context.Context, n *chordImpl.RemoteNode, _ chord.VNode) error {
+	{"GetPredecessor", false, func(_ context.Context, n *chordImpl.RemoteNode, _ chord.VNode, _ []byte) error {
 		_, e := n.GetPredecessor()
 		return e
 	}},
-	{"RequestToJoin", func(_ context.Context, n *chordImpl.RemoteNode, p chord.VNode) error {
+	{"RequestToJoin", false, func(_ context.Context, n *chordImpl.RemoteNode, p chord.VNode, _ []byte) error {
 		_, _, e := n.RequestToJoin(p)
 		return e
 	}},
-	{"FinishJoin", func(_ context.Context, n *chordImpl.RemoteNode, _ chord.VNode) error {
+	{"FinishJoin", false, func(_ context.Context, n *chordImpl.RemoteNode, _ chord.VNode, _ []byte) error {
 		return n.FinishJoin(true, false)
 	}},
-	{"RequestToLeave", func(_ context.Context, n *chordImpl.RemoteNode, p chord.VNode) error { return n.RequestToLeave(p) }},
-	{"FinishLeave", func(_ context.Context, n *chordImpl.RemoteNode, _ chord.VNode) error {
+	{"RequestToLeave", false, func(_ context.Context, n *chordImpl.RemoteNode, p chord.VNode, _ []byte) error {
+		return n.RequestToLeave(p)
+	}},
+	{"FinishLeave", false, func(_ context.Context, n *chordImpl.RemoteNode, _ chord.VNode, _ []byte) error {
 		return n.FinishLeave(false, true)
 	}},
-	{"Put", func(c context.Context, n *chordImpl.RemoteNode, _ chord.VNode) error {
-		return n.Put(c, []byte("k"), []byte("v"))
+	{"Put", true, func(c context.Context, n *chordImpl.RemoteNode, _ chord.VNode, k []byte) error {
+		return n.Put(c, k, []byte("v"))
 	}},
-	{"Get", func(c context.Context, n *chordImpl.RemoteNode, _ chord.VNode) error {
-		_, e := n.Get(c, []byte("k"))
+	{"Get", true, func(c context.Context, n *chordImpl.RemoteNode, _ chord.VNode, k []byte) error {
+		_, e := n.Get(c, k)
 		return e
 	}},
-	{"Delete", func(c context.Context, n *chordImpl.RemoteNode, _ chord.VNode) error { return n.Delete(c, []byte("k")) }},
-	{"Append", func(c context.Context, n *chordImpl.RemoteNode, _ chord.VNode) error {
-		return n.PrefixAppend(c, []byte("p"), []byte("c"))
+	{"Delete", true, func(c context.Context, n *chordImpl.RemoteNode, _ chord.VNode, k []byte) error { return n.Delete(c, k) }},
+	{"Append", true, func(c context.Context, n *chordImpl.RemoteNode, _ chord.VNode, k []byte) error {
+		return n.PrefixAppend(c, k, []byte("c"))
 	}},
-	{"List", func(c context.Context, n *chordImpl.RemoteNode, _ chord.VNode) error {
-		_, e := n.PrefixList(c, []byte("p"))
+	{"List", true, func(c context.Context, n *chordImpl.RemoteNode, _ chord.VNode, k []byte) error {
+		_, e := n.PrefixList(c, k)
 		return e
 	}},
-	{"Contains", func(c context.Context, n *chordImpl.RemoteNode, _ chord.VNode) error {
-		_, e := n.PrefixContains(c, []byte("p"), []byte("c"))
+	{"Contains", true, func(c context.Context, n *chordImpl.RemoteNode, _ chord.VNode, k []byte) error {
+		_, e := n.PrefixContains(c, k, []byte("c"))
 		return e
 	}},
-	{"Remove", func(c context.Context, n *chordImpl.RemoteNode, _ chord.VNode) error {
-		return n.PrefixRemove(c, []byte("p"), []byte("c"))
+	{"Remove", true, func(c context.Context, n *chordImpl.RemoteNode, _ chord.VNode, k []byte) error {
+		return n.PrefixRemove(c, k, []byte("c"))
 	}},
-	{"Acquire", func(c context.Context, n *chordImpl.RemoteNode, _ chord.VNode) error {
-		_, e := n.Acquire(c, []byte("l"), time.Second)
+	{"Acquire", true, func(c context.Context, n *chordImpl.RemoteNode, _ chord.VNode, k []byte) error {
+		_, e := n.Acquire(c, k, time.Second)
 		return e
 	}},
-	{"Renew", func(c context.Context, n *chordImpl.RemoteNode, _ chord.VNode) error {
-		_, e := n.Renew(c, []byte("l"), time.Second, 1)
+	{"Renew", true, func(c context.Context, n *chordImpl.RemoteNode, _ chord.VNode, k []byte) error {
+		_, e := n.Renew(c, k, time.Second, 1)
 		return e
 	}},
-	{"Release", func(c context.Context, n *chordImpl.RemoteNode, _ chord.VNode) error {
-		return n.Release(c, []byte("l"), 1)
+	{"Release", true, func(c context.Context, n *chordImpl.RemoteNode, _ chord.VNode, k []byte) error {
+		return n.Release(c, k, 1)
 	}},
-	{"Import", func(c context.Context, n *chordImpl.RemoteNode, _ chord.VNode) error {
+	{"Import", false, func(c context.Context, n *chordImpl.RemoteNode, _ chord.VNode, _ []byte) error {
 		return n.Import(c, [][]byte{[]byte("k")}, []*protocol.KVTransfer{{SimpleValue: []byte("v")}})
 	}},
-	{"ListKeys", func(c context.Context, n *chordImpl.RemoteNode, _ chord.VNode) error {
-		_, e := n.ListKeys(c, []byte("p"))
+	{"ListKeys", true, func(c context.Context, n *chordImpl.RemoteNode, _ chord.VNode, k []byte) error {
+		_, e := n.ListKeys(c, k)
 		return e
 	}},
 }
@@ -249,28 +290,45 @@ func identify(err error) string {
 	return "other"
 }
 
-func (g *rig) run(r *hlib.Run, m method, kind, arg string, origin error) {
+func (g *rig) run(r *hlib.Run, m method, kind, arg string, origin error, ktok string) {
 	g.st.err = origin
-	lhs := fmt.Sprintf("rpc %s %s %s %s", m.name, kind, arg, hlib.B(chord.ErrorIsRetryable(origin)))
+	var key []byte
+	if m.kv {
+		var ok bool
+		if key, ok = makeKey(ktok); !ok {
+			return
+		}
+	} else {
+		ktok = "-"
+	}
+	lhs := fmt.Sprintf("rpc %s %s %s %s %s", m.name, kind, arg, hlib.B(chord.ErrorIsRetryable(origin)), ktok)
 	attempt := func() (res string, transport bool) {
 		defer func() {
 			if p := recover(); p != nil {
 				res = "panic"
 			}
 		}()
-		err := m.call(g.ctx, g.caller, g.peerVN)
+		err := m.call(g.ctx, g.caller, g.peerVN, key)
 		if err == nil {
 			return "noerror", false
 		}
 		id := identify(err)
-		msg := "-"
+		msg, kv := "-", "-"
 		if te, ok := err.(twirp.Error); ok {
 			msg = hlib.B(te.Msg() == origin.Error())
+			// the meta entry "kv" of the error the caller holds: absent / the key that was sent / something else
+			if v, has := te.MetaMap()["kv"]; !has {
+				kv = "none"
+			} else if v == string(key) {
+				kv = "same"
+			} else {
+				kv = "diff"
+			}
 			// a twirp error that does not carry the handler's message did not come from the handler (client-side
 			// timeout / transport hiccup on a loaded machine): not the subject, try again
 			transport = te.Msg() != origin.Error()
 		}
-		return fmt.Sprintf("id=%s retry=%s msgsame=%s", id, hlib.B(chord.ErrorIsRetryable(err)), msg), transport
+		return fmt.Sprintf("id=%s retry=%s msgsame=%s kv=%s", id, hlib.B(chord.ErrorIsRetryable(err)), msg, kv), transport
 	}
 	var res string
 	for try := 0; try < 4; try++ {
@@ -291,11 +349,46 @@ func (g *rig) run(r *hlib.Run, m method, kind, arg string, origin error) {
 		r.Count("kind:" + kind)
 	}
 	r.Count("method:" + m.name)
+	if m.kv {
+		r.Count("keylen:" + lenBucket(len(key)))
+		r.Count("keystyle:" + ktok[:1])
+	}
+}
+
+func lenBucket(n int) string {
+	switch {
+	case n == 0:
+		return "0"
+	case n <= 16:
+		return "1..16"
+	case n <= 64:
+		return "17..64"
+	case n <= 128:
+		return "65..128"
+	case n <= 256:
+		return "129..256"
+	case n <= 1024:
+		return "257..1024"
+	case n <= 8192:
+		return "1025..8192"
+	default:
+		return ">8192"
+	}
+}
+
+// key lengths every (KV method, error) pair is tried with, over the rounds: 0, 1, 2 and every power of two up to
+// 64 KiB with its two neighbours
+func boundaryLens() []int {
+	ls := []int{0, 1, 2}
+	for p := 4; p <= 1<<16; p <<= 1 {
+		ls = append(ls, p-1, p, p+1)
+	}
+	return ls
 }
 
 func main() {
 	r := hlib.Start()
-	r.Rule = "exhaustive: every registry error x every RemoteNode RPC method through the real chord.Server + twirp server/client + ErrorMapper; plus per method: every registry error and the deadline error inside text-preserving wrappers (fmt.Errorf %w / errors.Join / wrapper type, nested 1..3 deep), %w-wrapped registry errors with a changed text, context.DeadlineExceeded (bare and wrapped), context.Canceled, fresh errors with a registry message, random arbitrary errors; non-trivial = distinct (method, origin, caller view)"
+	r.Rule = "exhaustive: every registry error x every RemoteNode RPC method through the real chord.Server + twirp server/client + ErrorMapper; plus per method: every registry error and the deadline error inside text-preserving wrappers (fmt.Errorf %w / errors.Join / wrapper type, nested 1..3 deep), %w-wrapped registry errors with a changed text, context.DeadlineExceeded (bare and wrapped), context.Canceled, fresh errors with a registry message, random arbitrary errors (short, near-registry, long); the KV / lease methods with keys / prefixes / lease names of length 0, 1, 2, every power of two up to 64 KiB and its neighbours, and random lengths (ASCII and escaped/multi-byte UTF-8) for every registry error, the deadline error and samples of the other kinds; non-trivial = distinct (method, origin, caller view)"
 	rng := hlib.NewRng(r.Seed)
 	g := setup()
 	names := make([]string, 0)
@@ -310,32 +403,37 @@ func main() {
 	for _, e := range registry {
 		byName[e.name] = e.err
 	}
-	one := func(m method, kind, arg string) {
+	onek := func(m method, kind, arg, ktok string) {
 		if strings.HasPrefix(kind, "same:") {
 			if base, ok := byName[arg]; ok {
 				if origin, ok := wrapSame(strings.TrimPrefix(kind, "same:"), base); ok {
-					g.run(r, m, kind, arg, origin)
+					g.run(r, m, kind, arg, origin, ktok)
 				}
 			}
 			return
 		}
+		if _, ok := byName[arg]; !ok && (kind == "reg" || kind == "wrapped" || kind == "alias") {
+			return
+		}
 		switch kind {
 		case "reg":
-			g.run(r, m, kind, arg, byName[arg])
+			g.run(r, m, kind, arg, byName[arg], ktok)
 		case "wrapped":
-			g.run(r, m, kind, arg, fmt.Errorf("storing KV to successor: %w", byName[arg]))
+			g.run(r, m, kind, arg, fmt.Errorf("storing KV to successor: %w", byName[arg]), ktok)
 		case "alias":
-			g.run(r, m, kind, arg, errors.New(byName[arg].Error()))
+			g.run(r, m, kind, arg, errors.New(byName[arg].Error()), ktok)
 		case "deadline":
-			g.run(r, m, kind, "-", context.DeadlineExceeded)
+			g.run(r, m, kind, "-", context.DeadlineExceeded, ktok)
 		case "deadlinewrapped":
-			g.run(r, m, kind, "-", fmt.Errorf("forwarding: %w", context.DeadlineExceeded))
+			g.run(r, m, kind, "-", fmt.Errorf("forwarding: %w", context.DeadlineExceeded), ktok)
 		case "canceled":
-			g.run(r, m, kind, "-", context.Canceled)
+			g.run(r, m, kind, "-", context.Canceled, ktok)
 		case "opaque":
-			g.run(r, m, kind, arg, errors.New(string(hlib.UnHex(arg))))
+			g.run(r, m, kind, arg, errors.New(string(hlib.UnHex(arg))), ktok)
 		}
 	}
+	// the short key the repository's own tests use
+	one := func(m method, kind, arg string) { onek(m, kind, arg, "a1") }
 	if r.Replay != "" {
 		for _, t := range r.ReplayLines() {
 			if t[0] != "rpc" {
@@ -343,7 +441,11 @@ func main() {
 			}
 			for _, m := range methods {
 				if m.name == t[1] {
-					one(m, t[2], t[3])
+					ktok := "a1" // lines recorded before keys were varied
+					if len(t) > 5 {
+						ktok = t[5]
+					}
+					onek(m, t[2], t[3], ktok)
 				}
 			}
 		}
@@ -351,7 +453,7 @@ func main() {
 		return
 	}
 	randMsg := func() string {
-		switch rng.Intn(4) {
+		switch rng.Intn(5) {
 		case 0: // a registry message with a small edit
 			b := []byte(hlib.Pick(rng, registry).err.Error())
 			b[rng.Intn(len(b))] ^= 1
@@ -360,6 +462,12 @@ func main() {
 			return hlib.HexS("chord: " + string(rune('a'+rng.Intn(26))))
 		case 2:
 			return hlib.HexS(hlib.Pick(rng, registry).err.Error() + " ")
+		case 3: // a long message (storage backends): a registry message followed by up to a few KiB of detail
+			b := []byte(hlib.Pick(rng, registry).err.Error() + ": ")
+			for n := 100 + rng.Intn(1<<uint(7+rng.Intn(6))); n > 0; n-- {
+				b = append(b, byte(' '+rng.Intn(95)))
+			}
+			return hlib.Hex(b)
 		default:
 			b := make([]byte, 1+rng.Intn(20))
 			for i := range b {
@@ -375,6 +483,38 @@ func main() {
 		}
 		return string(b)
 	}
+	// keys / prefixes / lease names for the KV methods: a boundary length (all of them come up, spread over the
+	// (method, error) pairs) or a random length, log-uniform up to 8 KiB (quick) / 256 KiB (thorough)
+	bls := boundaryLens()
+	blNext := rng.Intn(len(bls))
+	style := func() string { return string("au"[rng.Intn(2)]) }
+	boundaryKey := func() string {
+		blNext = (blNext + 7) % len(bls) // 7 is coprime with len(bls): every length is visited
+		return fmt.Sprintf("%s%d", style(), bls[blNext])
+	}
+	randKey := func() string {
+		maxBits := 13
+		if r.Thorough() {
+			maxBits = 18
+		}
+		bits := 1 + rng.Intn(maxBits)
+		return fmt.Sprintf("%s%d", style(), (1<<uint(bits-1))+rng.Intn(1<<uint(bits-1)))
+	}
+	nBoundary, nRand := 3, 2
+	if r.Thorough() {
+		nBoundary, nRand = 8, 4
+	}
+	keyed := func(m method, kind, arg string) {
+		if !m.kv {
+			return
+		}
+		for i := 0; i < nBoundary; i++ {
+			onek(m, kind, arg, boundaryKey())
+		}
+		for i := 0; i < nRand; i++ {
+			onek(m, kind, arg, randKey())
+		}
+	}
 	rounds := 1
 	if r.Thorough() {
 		rounds = 8
@@ -387,20 +527,36 @@ func main() {
 					one(m, "same:f", e.name)
 				}
 				one(m, "same:"+randShape(), e.name)
+				if m.kv {
+					onek(m, "same:"+randShape(), e.name, boundaryKey())
+					onek(m, "same:"+randShape(), e.name, randKey())
+				}
 				if e.name == "context.DeadlineExceeded" {
 					continue // bare: exercised as kind `deadline`
 				}
 				one(m, "reg", e.name)
+				keyed(m, "reg", e.name)
 				if round == 0 || rng.Chance(20) {
 					one(m, "wrapped", e.name)
 					one(m, "alias", e.name)
 				}
 			}
 			one(m, "deadline", "-")
+			keyed(m, "deadline", "-")
 			one(m, "deadlinewrapped", "-")
 			one(m, "canceled", "-")
 			for i := 0; i < 6; i++ {
 				one(m, "opaque", randMsg())
+			}
+			if m.kv {
+				onek(m, "canceled", "-", randKey())
+				onek(m, "deadlinewrapped", "-", boundaryKey())
+				onek(m, "wrapped", hlib.Pick(rng, registry[:len(registry)-1]).name, boundaryKey())
+				onek(m, "alias", hlib.Pick(rng, registry[:len(registry)-1]).name, randKey())
+				for i := 0; i < 4; i++ {
+					onek(m, "opaque", randMsg(), boundaryKey())
+					onek(m, "opaque", randMsg(), randKey())
+				}
 			}
 		}
 	}
